@@ -2,8 +2,10 @@
 # usage: try_seed.sh <seed-name> <CHECK> [tier]  : run one check against a stored seeded change (scratch worktree, removed afterwards)
 name=$1; prop=$2; tier=${3:-quick}
 wt=/tmp/tryseed-$$
-git -C /repo worktree add -q --detach $wt HEAD || exit 3
-( cd $wt && git apply /verif/seeded/$name/patch.diff ) || { echo "PATCH DOES NOT APPLY"; git -C /repo worktree remove --force $wt; exit 3; }
+base=$(/venv/bin/python -c "import json;print(json.load(open('/verif/seeded/$name/meta.json')).get('base','HEAD'))" 2>/dev/null || echo HEAD)
+pf=/verif/seeded/$name/patch.diff; [ -f /verif/seeded/$name/patch-rebased.diff ] && pf=/verif/seeded/$name/patch-rebased.diff
+git -C /repo worktree add -q --detach $wt $base || exit 3
+( cd $wt && git apply $pf ) || { echo "PATCH DOES NOT APPLY"; git -C /repo worktree remove --force $wt; exit 3; }
 cd /verif && VERIF_REPO=$wt VERIF_EVIDENCE_DIR=/tmp/tryseed-ev-$$ VERIF_REPLAY_DIR=/tmp/tryseed-ev-$$ timeout 3000 /venv/bin/python -B /verif/check $prop --tier $tier 2>&1 | grep -v "^WARNING conda" | cut -c1-${CUT:-600}
 rm -rf /tmp/tryseed-ev-$$
 git -C /repo worktree remove --force $wt
